@@ -82,3 +82,117 @@ theorem sim_good (R : Int → Bool) (P : Nat) (hist : List (Nat × In α)) :
           exact deliver_good R P hist c a m ham hc
 
 end Verif.Model.Shared
+
+namespace Verif.Model.Shared
+open Verif.Model.Await
+variable {α : Type}
+
+/-! ## Each arriving message is handed to at most one caller -/
+
+/-- all consumed arrival ticks, caller by caller -/
+def allGot (cs : List (CState α)) : List Nat := cs.flatMap (·.got)
+
+theorem allGot_modifyAt_st (cs : List (CState α)) (i : Nat) (f : CState α → CState α)
+    (hf : ∀ c, (f c).got = c.got) : allGot (modifyAt cs i f) = allGot cs := by
+  induction cs generalizing i with
+  | nil => simp [modifyAt, allGot]
+  | cons x xs ih =>
+    cases i with
+    | zero => simp [modifyAt, allGot, hf]
+    | succ j =>
+      have := ih j
+      simp only [allGot, modifyAt, List.flatMap_cons] at this ⊢
+      rw [this]
+
+/-- delivering arrival `a` to caller `i` adds exactly `a` to what has been consumed (or nothing,
+when there is no such caller) -/
+theorem allGot_modifyAt_deliver (R : Int → Bool) (P : Nat) (cs : List (CState α)) (i a : Nat) (m : In α) :
+    (allGot (modifyAt cs i (fun c => deliver R P c a m))).Perm (a :: allGot cs)
+    ∨ allGot (modifyAt cs i (fun c => deliver R P c a m)) = allGot cs := by
+  induction cs generalizing i with
+  | nil => right; simp [modifyAt, allGot]
+  | cons x xs ih =>
+    cases i with
+    | zero =>
+      left
+      have hg : (deliver R P x a m).got = x.got ++ [a] := by
+        unfold deliver; split <;> rfl
+      simp only [modifyAt, allGot, List.flatMap_cons, hg]
+      have : (x.got ++ [a] ++ xs.flatMap (·.got)).Perm (a :: (x.got ++ xs.flatMap (·.got))) := by
+        rw [List.append_assoc]
+        exact (List.perm_middle).trans (List.Perm.refl _)
+      exact this
+    | succ j =>
+      rcases ih j with h | h
+      · left
+        simp only [allGot, modifyAt, List.flatMap_cons] at h ⊢
+        exact (List.Perm.append_left _ h).trans List.perm_middle
+      · right
+        simp only [allGot, modifyAt, List.flatMap_cons] at h ⊢
+        rw [h]
+
+/-- invariant: what the callers have consumed so far, together with what is still to arrive, never
+repeats an arrival of a history whose arrival ticks are distinct, and is drawn from it -/
+theorem sim_consumed_once (R : Int → Bool) (P : Nat) :
+    ∀ (fuel : Nat) (cs : List (CState α)) (ev : List (Nat × In α)),
+      (allGot cs ++ ev.map (·.1)).Nodup →
+      (allGot (sim R P fuel cs ev)).Nodup
+      ∧ ∀ a ∈ allGot (sim R P fuel cs ev), a ∈ allGot cs ∨ a ∈ ev.map (·.1) := by
+  intro fuel
+  induction fuel with
+  | zero =>
+    intro cs ev h
+    exact ⟨(List.nodup_append.mp h).1, fun a ha => Or.inl (by simpa [sim] using ha)⟩
+  | succ n ih =>
+    intro cs ev h
+    have hcs : (allGot cs).Nodup := (List.nodup_append.mp h).1
+    unfold sim
+    simp only
+    split
+    · exact ⟨hcs, fun a ha => Or.inl ha⟩
+    · rename_i i t _
+      have e := allGot_modifyAt_st cs i (fun c => { c with st := St.done Outcome.timedOut c.caller.D }) (by intro c; rfl)
+      have := ih (modifyAt cs i (fun c => { c with st := St.done Outcome.timedOut c.caller.D })) ev (by rw [e]; exact h)
+      rw [e] at this; exact this
+    · rename_i i t _
+      have e := allGot_modifyAt_st cs i (fun c => { c with st := St.waiting t (t + P) }) (by intro c; rfl)
+      have := ih (modifyAt cs i (fun c => { c with st := St.waiting t (t + P) })) ev (by rw [e]; exact h)
+      rw [e] at this; exact this
+    · split
+      · exact ⟨hcs, fun a ha => Or.inl ha⟩
+      · rename_i a m rest _
+        have hsub : (allGot cs ++ rest.map (·.1)).Nodup := by
+          simp only [List.map_cons] at h
+          exact (List.Sublist.nodup (List.Sublist.append_left (List.sublist_cons_self _ _) _) h)
+        split
+        · obtain ⟨h1, h2⟩ := ih cs rest hsub
+          refine ⟨h1, fun x hx => ?_⟩
+          rcases h2 x hx with h3 | h3
+          · exact Or.inl h3
+          · exact Or.inr (by simp [h3])
+        · rename_i i _ _
+          rcases allGot_modifyAt_deliver R P cs i a m with hp | he
+          · have hn : (allGot (modifyAt cs i (fun c => deliver R P c a m)) ++ rest.map (·.1)).Nodup := by
+              have hperm : (allGot (modifyAt cs i (fun c => deliver R P c a m)) ++ rest.map (·.1)).Perm
+                  (allGot cs ++ (a :: rest.map (·.1))) :=
+                (List.Perm.append_right _ hp).trans (by simpa using (List.perm_middle).symm)
+              simp only [List.map_cons] at h
+              exact hperm.nodup_iff.mpr h
+            obtain ⟨h1, h2⟩ := ih _ rest hn
+            refine ⟨h1, fun x hx => ?_⟩
+            rcases h2 x hx with h3 | h3
+            · rcases (hp.mem_iff.mp h3) with h4
+              simp at h4
+              rcases h4 with rfl | h4
+              · exact Or.inr (by simp)
+              · exact Or.inl h4
+            · exact Or.inr (by simp [h3])
+          · have hn : (allGot (modifyAt cs i (fun c => deliver R P c a m)) ++ rest.map (·.1)).Nodup := by
+              rw [he]; exact hsub
+            obtain ⟨h1, h2⟩ := ih _ rest hn
+            refine ⟨h1, fun x hx => ?_⟩
+            rcases h2 x hx with h3 | h3
+            · exact Or.inl (by rw [he] at h3; exact h3)
+            · exact Or.inr (by simp [h3])
+
+end Verif.Model.Shared
